@@ -1,8 +1,749 @@
-//! C03 executor leg: cross-thread wake mailbox conservation (Miri + native) — not built yet.
+//! C03 (executor legs) — "a wake-up from any thread is never lost", checked on
+//! the REAL `compio-executor` with real threads as *mailbox conservation*.
+//!
+//! Waker threads do `posted[t] += 1; waker[t].wake()`. Task `t`, on every
+//! poll, moves `posted[t]` into `seen[t]`. After every waking thread has
+//! returned from `wake()` (signalled / joined), the executor's owner must poll
+//! the task again within a bounded number of its own steps, so finally
+//! `seen == posted`. Coalescing is allowed (polls <= wakes), dropping is not.
+//!
+//! Two owner models ("drive" modes), because the executor only promises to
+//! call `ExecutorConfig::waker` "when a task is scheduled" and the real owner
+//! (compio-runtime) sleeps in the kernel unless told otherwise:
+//!
+//! * `always` — the home thread ticks unconditionally. Quiescence bound:
+//!   after all wakers returned, `ceil(tasks / max_interval) + 1` further
+//!   `tick()`s (<= 3 for the Miri configurations) must make `seen == posted`.
+//!   Derivation: the first `tick()` drains the whole sync queue (all pushes
+//!   happened-before), which appends every woken task to the FIFO hot list;
+//!   each tick runs `max_interval` tasks from the head.
+//! * `notify` — the home thread ticks only when the owner waker has been
+//!   invoked since the beginning of its previous tick, or the previous
+//!   `tick()` returned `true` (hot tasks left); otherwise it is "asleep".
+//!   At quiescence (all wakers returned, owner asleep, no notification
+//!   outstanding) `seen < posted` is a wake-up that a sleeping owner would
+//!   never see: the id sits in the sync queue but nobody was told.
+//!
+//! Also checked:
+//! * `polls(t) - 1 <= owner notifications attributed to wakes of t` (+ local
+//!   ones): every id that was pushed (and therefore caused a poll) was
+//!   followed/preceded by exactly one owner notification on the pushing
+//!   thread — "invoked at least once per non-coalesced wake";
+//! * queue size 1/2 forces the "queue full → the waking thread waits, does
+//!   not discard" branch; a waking thread that has not returned although the
+//!   executor ticked (drained) `STUCK_TICKS` times with a yield after each is
+//!   reported (Miri: violation, its scheduler gives every runnable thread a
+//!   turn per yield; native: inconclusive — cannot be told from starvation
+//!   of the OS thread without a clock);
+//! * Miri: data races / UB / leaks on the executor's queue, state word and
+//!   `Shared` under weak-memory emulation.
+//!
+//! Harness-side state is atomics with `Relaxed`/`SeqCst` *counters only*; the
+//! hand-over of wakers to the threads uses thread spawn (a natural
+//! happens-before), the end-of-epoch signal is a SeqCst counter (= "the
+//! thread returned from wake()").
 
-use vcommon::Args;
+use std::{
+    cell::{Cell, RefCell},
+    future::Future,
+    pin::Pin,
+    rc::Rc,
+    sync::{
+        Arc,
+        atomic::{AtomicBool, AtomicU64, AtomicUsize, Ordering::*},
+    },
+    task::{Context, Poll, Wake, Waker},
+    thread,
+};
 
-pub fn main(_args: &Args) {
-    eprintln!("c03x: not implemented");
-    std::process::exit(3);
+use compio_executor::{Executor, ExecutorConfig};
+use vcommon::{Args, Report, Rng, Value, json, panics};
+
+// ---------------------------------------------------------------------------
+// Program
+// ---------------------------------------------------------------------------
+
+#[derive(Clone, Debug)]
+struct Program {
+    /// sync queue size
+    q: usize,
+    tasks: usize,
+    wakers: usize,
+    /// wakes per waker thread per epoch
+    wakes: usize,
+    max_interval: u32,
+    /// "always" | "notify"
+    notify: bool,
+    /// owner waker configured at all
+    owner: bool,
+    /// yields inside the owner callback (a slow notify syscall)
+    slow: u32,
+    epochs: usize,
+    /// seed of the per-thread yield/target choices
+    salt: u64,
+    /// percentage of wakes preceded by yields
+    yield_pct: usize,
+}
+
+impl Program {
+    fn to_json(&self) -> Value {
+        json!({"q": self.q, "tasks": self.tasks, "wakers": self.wakers, "wakes": self.wakes, "m": self.max_interval,
+               "notify": self.notify, "owner": self.owner, "slow": self.slow, "epochs": self.epochs,
+               "salt": self.salt, "yield_pct": self.yield_pct})
+    }
+
+    fn from_json(v: &Value) -> Option<Self> {
+        Some(Self {
+            q: v["q"].as_u64()? as usize,
+            tasks: v["tasks"].as_u64()? as usize,
+            wakers: v["wakers"].as_u64()? as usize,
+            wakes: v["wakes"].as_u64()? as usize,
+            max_interval: v["m"].as_u64()? as u32,
+            notify: v["notify"].as_bool()?,
+            owner: v["owner"].as_bool()?,
+            slow: v["slow"].as_u64()? as u32,
+            epochs: v["epochs"].as_u64()? as usize,
+            salt: v["salt"].as_u64()?,
+            yield_pct: v["yield_pct"].as_u64()? as usize,
+        })
+    }
+
+    /// Every task has at most one id in the sync queue at a time (SCHEDULED
+    /// bit), so the queue can only fill up when it is smaller than the task set.
+    fn qclass(&self) -> &'static str {
+        if self.q < self.tasks { "queue-smaller-than-task-set" } else { "queue-never-full" }
+    }
+}
+
+// ---------------------------------------------------------------------------
+// Instrumentation
+// ---------------------------------------------------------------------------
+
+struct Mailbox {
+    posted: AtomicU64,
+    seen: AtomicU64,
+    polls: AtomicU64,
+    /// owner notifications observed on a waking thread during a wake of this task
+    notified: AtomicU64,
+    /// polls on a thread other than home (C04's business, but free to see here)
+    foreign_polls: AtomicU64,
+}
+
+struct World {
+    mb: Vec<Mailbox>,
+    /// home thread: number of ticks started
+    ticks: AtomicU64,
+    /// 0 idle/asleep, 1 inside tick, 2 between ticks (awake)
+    phase: AtomicUsize,
+    /// owner notifications (all threads)
+    owner_calls: AtomicU64,
+    /// owner notifications from the home thread (local wakes)
+    owner_calls_home: AtomicU64,
+    slow: u32,
+    home: thread::ThreadId,
+    /// epoch release / completion
+    go: AtomicU64,
+    done: AtomicU64,
+    /// wake() calls entered / returned
+    entered: AtomicU64,
+    returned: AtomicU64,
+    abort: AtomicBool,
+}
+
+thread_local! {
+    /// owner callbacks seen by this thread
+    static TL_OWNER: Cell<u64> = const { Cell::new(0) };
+    /// `ticks` at the time of the last owner callback on this thread
+    static TL_OWNER_TICK: Cell<u64> = const { Cell::new(0) };
+}
+
+struct OwnerWaker(Arc<World>);
+
+impl Wake for OwnerWaker {
+    fn wake(self: Arc<Self>) {
+        self.wake_by_ref()
+    }
+
+    fn wake_by_ref(self: &Arc<Self>) {
+        let w = &self.0;
+        w.owner_calls.fetch_add(1, SeqCst);
+        if thread::current().id() == w.home {
+            w.owner_calls_home.fetch_add(1, Relaxed);
+        }
+        TL_OWNER.with(|c| c.set(c.get() + 1));
+        TL_OWNER_TICK.with(|c| c.set(w.ticks.load(Relaxed)));
+        for _ in 0..w.slow {
+            thread::yield_now();
+        }
+    }
+}
+
+struct MailFut {
+    idx: usize,
+    w: Arc<World>,
+    slot: Rc<RefCell<Vec<Option<Waker>>>>,
+    stop: Rc<Cell<bool>>,
+}
+
+impl Future for MailFut {
+    type Output = usize;
+
+    fn poll(self: Pin<&mut Self>, cx: &mut Context<'_>) -> Poll<usize> {
+        let mb = &self.w.mb[self.idx];
+        mb.polls.fetch_add(1, Relaxed);
+        if thread::current().id() != self.w.home {
+            mb.foreign_polls.fetch_add(1, Relaxed);
+        }
+        // the mailbox: everything posted so far is now seen
+        let p = mb.posted.load(SeqCst);
+        mb.seen.fetch_max(p, SeqCst);
+        let mut s = self.slot.borrow_mut();
+        if s[self.idx].as_ref().is_none_or(|w| !w.will_wake(cx.waker())) {
+            s[self.idx] = Some(cx.waker().clone());
+        }
+        if self.stop.get() { Poll::Ready(self.idx) } else { Poll::Pending }
+    }
+}
+
+#[derive(Default)]
+struct ThreadStats {
+    wakes: u64,
+    coalesced: u64,
+    notified: u64,
+    waited: u64,
+    phases: usize,
+}
+
+fn waker_thread(w: Arc<World>, p: Program, tid: usize, wakers: Vec<Waker>) -> ThreadStats {
+    let mut st = ThreadStats::default();
+    let mut rng = Rng::new(p.salt).fork(tid as u64 + 1);
+    let mut wakers: Vec<Option<Waker>> = wakers.into_iter().map(Some).collect();
+    'outer: for e in 0..p.epochs {
+        // wait for the epoch to be released
+        let mut spins = 0u64;
+        while w.go.load(SeqCst) <= e as u64 {
+            if w.abort.load(Relaxed) {
+                break 'outer;
+            }
+            spins += 1;
+            if cfg!(miri) || spins % 64 == 0 {
+                thread::yield_now();
+            } else {
+                std::hint::spin_loop();
+            }
+        }
+        for j in 0..p.wakes {
+            if rng.below(100) < p.yield_pct {
+                for _ in 0..rng.range(1, 3) {
+                    thread::yield_now();
+                }
+            } else if !cfg!(miri) && rng.chance(1, 4) {
+                for _ in 0..rng.below(200) {
+                    std::hint::spin_loop();
+                }
+            }
+            let t = rng.below(p.tasks);
+            let mb = &w.mb[t];
+            mb.posted.fetch_add(1, SeqCst);
+            let before = TL_OWNER.with(|c| c.get());
+            st.phases |= 1 << w.phase.load(Relaxed);
+            w.entered.fetch_add(1, SeqCst);
+            let last = e + 1 == p.epochs && j + 1 == p.wakes;
+            match rng.below(4) {
+                // consuming wake of a fresh clone
+                0 => wakers[t].as_ref().expect("waker").clone().wake(),
+                // consuming wake of our only handle at the very end
+                1 if last => wakers[t].take().expect("waker").wake(),
+                _ => wakers[t].as_ref().expect("waker").wake_by_ref(),
+            }
+            w.returned.fetch_add(1, SeqCst);
+            let delta = TL_OWNER.with(|c| c.get()) - before;
+            st.wakes += 1;
+            if delta == 0 {
+                st.coalesced += 1;
+            } else {
+                st.notified += delta;
+                mb.notified.fetch_add(delta, Relaxed);
+                // did the executor tick between our notification and our return?
+                if w.ticks.load(Relaxed) != TL_OWNER_TICK.with(|c| c.get()) {
+                    st.waited += 1;
+                }
+            }
+        }
+        w.done.fetch_add(1, SeqCst);
+    }
+    // remaining wakers are dropped here, on the foreign thread
+    st
+}
+
+// ---------------------------------------------------------------------------
+// One program
+// ---------------------------------------------------------------------------
+
+#[derive(Default)]
+struct Outcome {
+    violations: Vec<(String, String)>,
+    inconclusive: Option<String>,
+    stuck: bool,
+    wakes: u64,
+    coalesced: u64,
+    notified: u64,
+    waited: u64,
+    phases: usize,
+    polls: u64,
+    spurious: u64,
+    max_final_ticks: u64,
+    ticks: u64,
+    detail: Value,
+}
+
+/// Ticks with yields a waking thread gets to return from `wake()` while the
+/// executor keeps draining.
+const STUCK_TICKS: u64 = if cfg!(miri) { 3_000 } else { 30_000_000 };
+
+fn run_program(p: &Program) -> Outcome {
+    let mut out = Outcome::default();
+    let w = Arc::new(World {
+        mb: (0..p.tasks)
+            .map(|_| Mailbox {
+                posted: AtomicU64::new(0),
+                seen: AtomicU64::new(0),
+                polls: AtomicU64::new(0),
+                notified: AtomicU64::new(0),
+                foreign_polls: AtomicU64::new(0),
+            })
+            .collect(),
+        ticks: AtomicU64::new(0),
+        phase: AtomicUsize::new(2),
+        owner_calls: AtomicU64::new(0),
+        owner_calls_home: AtomicU64::new(0),
+        slow: p.slow,
+        home: thread::current().id(),
+        go: AtomicU64::new(0),
+        done: AtomicU64::new(0),
+        entered: AtomicU64::new(0),
+        returned: AtomicU64::new(0),
+        abort: AtomicBool::new(false),
+    });
+    let exe = Executor::with_config(ExecutorConfig {
+        sync_queue_size: p.q,
+        local_queue_size: 4,
+        max_interval: p.max_interval,
+        waker: p.owner.then(|| Waker::from(Arc::new(OwnerWaker(w.clone())))),
+    });
+    let slot = Rc::new(RefCell::new(vec![None; p.tasks]));
+    let stop = Rc::new(Cell::new(false));
+    let mut handles = Vec::new();
+    for idx in 0..p.tasks {
+        handles.push(exe.spawn(MailFut {
+            idx,
+            w: w.clone(),
+            slot: slot.clone(),
+            stop: stop.clone(),
+        }));
+    }
+    let tick = |exe: &Executor| -> bool {
+        w.ticks.fetch_add(1, Relaxed);
+        w.phase.store(1, Relaxed);
+        let hot = exe.tick();
+        w.phase.store(2, Relaxed);
+        hot
+    };
+    // first polls: register wakers
+    let mut guard = 0;
+    while slot.borrow().iter().any(|s| s.is_none()) {
+        tick(&exe);
+        guard += 1;
+        if guard > p.tasks as u64 + 4 {
+            out.violations.push((
+                "C03/executor/spawned-task-not-polled".into(),
+                format!("a spawned task was not polled within {guard} ticks (max_interval {})", p.max_interval),
+            ));
+            return out;
+        }
+    }
+    while tick(&exe) {}
+    let threads: Vec<_> = (0..p.wakers)
+        .map(|tid| {
+            let w = w.clone();
+            let p = p.clone();
+            let wakers: Vec<Waker> = slot.borrow().iter().map(|s| s.clone().expect("waker")).collect();
+            thread::spawn(move || waker_thread(w, p, tid, wakers))
+        })
+        .collect();
+    // the home thread no longer needs its own waker clones
+    if p.salt & 1 == 0 {
+        slot.borrow_mut().iter_mut().for_each(|s| *s = None);
+    }
+
+    let bound = (p.tasks as u64).div_ceil(p.max_interval as u64) + 1;
+    let conserved = |w: &World| w.mb.iter().all(|m| m.seen.load(SeqCst) >= m.posted.load(SeqCst));
+    let mut last_notify = w.owner_calls.load(SeqCst);
+    let mut hot = false;
+    let mut hrng = Rng::new(p.salt).fork(0);
+    'epochs: for e in 0..p.epochs {
+        w.go.store(e as u64 + 1, SeqCst);
+        let target = ((e + 1) * p.wakers) as u64;
+        let mut iter = 0u64;
+        // ---- concurrent phase: wakers are waking, the owner runs
+        while w.done.load(SeqCst) < target {
+            iter += 1;
+            if iter > STUCK_TICKS {
+                out.stuck = true;
+                let msg = format!(
+                    "{} of {} wake() calls have not returned after {} executor ticks (each drains the sync queue) with a yield \
+                     after each; queue size {}",
+                    w.entered.load(SeqCst) - w.returned.load(SeqCst),
+                    w.entered.load(SeqCst),
+                    STUCK_TICKS,
+                    p.q
+                );
+                if cfg!(miri) {
+                    out.violations.push((format!("C03/executor/waker-stuck-in-wake/{}", p.qclass()), msg));
+                } else {
+                    out.inconclusive = Some(format!("watchdog: {msg}"));
+                }
+                w.abort.store(true, SeqCst);
+                break 'epochs;
+            }
+            if p.notify {
+                let n = w.owner_calls.load(SeqCst);
+                if n != last_notify || hot {
+                    last_notify = n;
+                    hot = tick(&exe);
+                } else {
+                    // asleep
+                    w.phase.store(0, Relaxed);
+                    // a sleeping owner does not tick, but a waker spinning on a
+                    // full queue has notified us before spinning, so we never
+                    // sleep through that
+                    thread::yield_now();
+                    w.phase.store(2, Relaxed);
+                }
+            } else {
+                hot = tick(&exe);
+                if cfg!(miri) || hrng.chance(1, 8) {
+                    thread::yield_now();
+                }
+            }
+        }
+        // ---- quiescence: every waker of this epoch has returned from wake()
+        let mut final_ticks = 0u64;
+        if p.notify {
+            // run the owner to its fixpoint exactly as above
+            loop {
+                let n = w.owner_calls.load(SeqCst);
+                if n == last_notify && !hot {
+                    break;
+                }
+                last_notify = n;
+                hot = tick(&exe);
+                final_ticks += 1;
+                if final_ticks > bound + 8 {
+                    break;
+                }
+            }
+            if !conserved(&w) {
+                // a sleeping owner: nothing will ever wake it
+                let stranded: Vec<_> = w
+                    .mb
+                    .iter()
+                    .enumerate()
+                    .filter(|(_, m)| m.seen.load(SeqCst) < m.posted.load(SeqCst))
+                    .map(|(i, m)| json!({"task": i, "posted": m.posted.load(SeqCst), "seen": m.seen.load(SeqCst)}))
+                    .collect();
+                // evidence: is the id in the queue? one unconditional tick tells
+                let mut extra = 0;
+                while !conserved(&w) && extra < bound + 4 {
+                    tick(&exe);
+                    extra += 1;
+                }
+                let recovered = conserved(&w);
+                out.violations.push((
+                    format!(
+                        "C03/executor/owner-not-notified-after-push/{}/{}",
+                        p.qclass(),
+                        if recovered { "id-queued-owner-asleep" } else { "id-lost" }
+                    ),
+                    format!(
+                        "all {} waker threads returned from wake(); the owner ticked after every notification it got \
+                         ({} in total) and is now asleep with no notification outstanding, yet {:?} still has posted > seen. \
+                         {} unconditional extra tick(s) {} the mailbox: the task id {} — Remote::schedule notifies the owner \
+                         only *before* waiting for room in a full queue and not again after the push succeeded",
+                        p.wakers,
+                        w.owner_calls.load(SeqCst),
+                        stranded,
+                        extra,
+                        if recovered { "drained" } else { "did NOT drain" },
+                        if recovered { "was sitting in the sync queue" } else { "is gone" },
+                    ),
+                ));
+                if !recovered {
+                    break 'epochs;
+                }
+                last_notify = w.owner_calls.load(SeqCst);
+                hot = false;
+            } else if final_ticks > bound {
+                out.violations.push((
+                    format!("C03/executor/wake-late/notify/{}", p.qclass()),
+                    format!("needed {final_ticks} notified ticks after all wakers returned; bound {bound}"),
+                ));
+            }
+        } else {
+            while !conserved(&w) && final_ticks < bound + 16 {
+                tick(&exe);
+                final_ticks += 1;
+            }
+            if !conserved(&w) {
+                out.violations.push((
+                    format!("C03/executor/wake-lost/always/{}", p.qclass()),
+                    format!(
+                        "all {} waker threads returned from wake(), {} further ticks did not poll the task: {:?}",
+                        p.wakers,
+                        final_ticks,
+                        w.mb.iter().map(|m| (m.posted.load(SeqCst), m.seen.load(SeqCst))).collect::<Vec<_>>()
+                    ),
+                ));
+                break 'epochs;
+            } else if final_ticks > bound {
+                out.violations.push((
+                    format!("C03/executor/wake-late/always/{}", p.qclass()),
+                    format!(
+                        "needed {final_ticks} ticks after all wakers returned; bound ceil(tasks/max_interval)+1 = {bound}"
+                    ),
+                ));
+            }
+        }
+        out.max_final_ticks = out.max_final_ticks.max(final_ticks);
+    }
+    if out.stuck {
+        // threads may still be inside wake(): nothing can be joined or freed.
+        std::mem::forget(handles);
+        std::mem::forget(exe);
+        return out;
+    }
+    for t in threads {
+        match t.join() {
+            Ok(st) => {
+                out.wakes += st.wakes;
+                out.coalesced += st.coalesced;
+                out.notified += st.notified;
+                out.waited += st.waited;
+                out.phases |= st.phases;
+            }
+            Err(_) => out.inconclusive = Some("harness: waker thread panicked".into()),
+        }
+    }
+    // per-task accounting
+    for (i, m) in w.mb.iter().enumerate() {
+        let polls = m.polls.load(SeqCst);
+        out.polls += polls;
+        let posted = m.posted.load(SeqCst);
+        if m.foreign_polls.load(SeqCst) != 0 {
+            out.violations.push(("C03/executor/polled-off-home-thread".into(), format!("task {i} polled on a foreign thread")));
+        }
+        // every poll after the spawn poll stems from one pushed id
+        if polls > posted + 1 {
+            out.spurious += polls - posted - 1;
+        }
+        if p.owner && polls.saturating_sub(1) > m.notified.load(SeqCst) && out.violations.is_empty() {
+            out.violations.push((
+                format!("C03/executor/owner-notified-less-than-pushes/{}", p.qclass()),
+                format!(
+                    "task {i}: {} polls after the spawn poll (each needs one id pushed by a remote wake) but only {} owner \
+                     notifications were made by the waking threads during wakes of this task",
+                    polls - 1,
+                    m.notified.load(SeqCst)
+                ),
+            ));
+        }
+    }
+    out.ticks = w.ticks.load(SeqCst);
+    out.detail = json!({
+        "posted": w.mb.iter().map(|m| m.posted.load(SeqCst)).collect::<Vec<_>>(),
+        "polls": w.mb.iter().map(|m| m.polls.load(SeqCst)).collect::<Vec<_>>(),
+        "owner_calls": w.owner_calls.load(SeqCst), "ticks": out.ticks, "coalesced": out.coalesced,
+        "waited_for_room": out.waited,
+    });
+    // orderly end: let the tasks finish, take their results, free everything
+    // (Miri's leak check is on for this leg)
+    stop.set(true);
+    let home_wakers: Vec<Waker> = slot.borrow_mut().iter_mut().filter_map(|s| s.take()).collect();
+    for hw in &home_wakers {
+        hw.wake_by_ref();
+    }
+    drop(home_wakers);
+    let mut t = 0;
+    while handles.iter().any(|h| !h.is_finished()) && t < p.tasks + 8 {
+        tick(&exe);
+        t += 1;
+    }
+    for (i, h) in handles.into_iter().enumerate() {
+        if h.is_finished() {
+            let mut h = h;
+            let w0 = Waker::noop();
+            let mut cx = Context::from_waker(w0);
+            match Pin::new(&mut h).poll(&mut cx) {
+                Poll::Ready(Ok(v)) if v == i => {}
+                Poll::Ready(Ok(v)) => out.violations.push(("C03/executor/wrong-join-value".into(), format!("task {i} joined {v}"))),
+                Poll::Ready(Err(e)) => out.violations.push(("C03/executor/join-error".into(), format!("task {i}: {e}"))),
+                Poll::Pending => out.violations.push(("C03/executor/finished-but-pending".into(), format!("task {i}"))),
+            }
+        } else {
+            // only reachable when every waker was consumed by the threads
+            // (no home copy left): fine, dropped with the executor
+            drop(h);
+        }
+    }
+    drop(exe);
+    out
+}
+
+fn evaluate(p: &Program, rep: &mut Report, leg: &str) -> bool {
+    let o = match panics::catch(|| run_program(p)) {
+        Ok(o) => o,
+        Err(info) => {
+            match info.origin() {
+                panics::Origin::Repo(l) => rep.violation(
+                    &format!("C03/executor/{}", info.sig()),
+                    &format!("panic inside compio at {l}: {}", info.message),
+                    json!({"program": p.to_json(), "reps": 300}),
+                ),
+                o => rep.inconclusive(&format!("harness panic {o:?}: {}", info.message)),
+            }
+            return true;
+        }
+    };
+    rep.count("wakes_issued", o.wakes as i64);
+    rep.count("wakes_coalesced", o.coalesced as i64);
+    rep.count("owner_notifications_by_wakers", o.notified as i64);
+    rep.count("wakes_that_waited_across_a_tick", o.waited as i64);
+    rep.count("task_polls", o.polls as i64);
+    rep.count("spurious_polls", o.spurious as i64);
+    rep.count("executor_ticks", o.ticks as i64);
+    rep.max("max_ticks_needed_at_quiescence", o.max_final_ticks as i64);
+    rep.floor("saw-coalesced-wake", o.coalesced > 0);
+    rep.floor("saw-wake-waiting-across-a-tick(small-queue)", o.waited > 0);
+    rep.floor("saw-wake-while-owner-asleep-or-ticking", o.phases & 0b011 != 0);
+    let mut ph = String::new();
+    for (i, c) in ["s", "t", "a"].iter().enumerate() {
+        if o.phases & (1 << i) != 0 {
+            ph.push_str(c);
+        }
+    }
+    let nontrivial = o.wakes > 0 && (o.notified > 0 || !p.owner);
+    rep.eval(nontrivial.then(|| {
+        format!(
+            "x:{leg}:q{}:t{}:n{}:m{}:{}:ph-{}:co{}:wt{}:slow{}",
+            p.q,
+            p.tasks.min(3),
+            p.wakers.min(4),
+            p.max_interval,
+            if p.notify { "notify" } else { "always" },
+            ph,
+            (o.coalesced > 0) as u8,
+            (o.waited > 0) as u8,
+            (p.slow > 0) as u8
+        )
+    }));
+    if rep.want_sample() {
+        rep.sample(json!({"program": p.to_json(), "observed": o.detail}));
+    }
+    if let Some(r) = &o.inconclusive {
+        rep.inconclusive(r);
+    }
+    for (sig, what) in &o.violations {
+        rep.violation(sig, what, json!({"program": p.to_json(), "reps": 300}));
+    }
+    if o.stuck {
+        // threads are still inside compio; the process cannot continue sanely
+        rep.note("a waker thread was stuck inside wake(): process ended early");
+        rep.finish();
+        std::process::exit(0);
+    }
+    !o.violations.is_empty()
+}
+
+fn gen_program(rng: &mut Rng, args: &Args, stress: bool) -> Program {
+    if stress {
+        let threads = args.usize("threads", 16);
+        let wakers = rng.range(2, threads.max(2));
+        let total = args.usize("max-wakes", 1_000_000);
+        let epochs = rng.range(1, 6);
+        let wakes = (rng.range(total / 50, total) / wakers / epochs).max(1);
+        Program {
+            q: *rng.pick(&[1, 1, 2, 3, 8, 64]),
+            tasks: *rng.pick(&[1, 2, 3, 5, 16, 32]),
+            wakers,
+            wakes,
+            max_interval: *rng.pick(&[1, 2, 7, 61]),
+            notify: rng.chance(1, 2),
+            owner: true,
+            slow: if rng.chance(1, 4) { 1 } else { 0 },
+            epochs,
+            salt: rng.next_u64(),
+            yield_pct: *rng.pick(&[0, 2, 10, 40]),
+        }
+    } else {
+        let notify = rng.chance(1, 2);
+        Program {
+            q: *rng.pick(&[1, 1, 2, 64]),
+            tasks: rng.range(1, 2),
+            wakers: rng.range(1, 3),
+            wakes: rng.range(1, 4),
+            max_interval: *rng.pick(&[1, 2, 61]),
+            notify,
+            owner: notify || rng.chance(5, 6),
+            slow: if rng.chance(1, 3) { rng.range(1, 2) as u32 } else { 0 },
+            epochs: rng.range(1, 2),
+            salt: rng.next_u64(),
+            yield_pct: *rng.pick(&[0, 30, 60]),
+        }
+    }
+}
+
+pub fn main(args: &Args) {
+    let leg = args.str("leg", "native");
+    let mut rep = Report::from_args("C03", &leg, args);
+    rep.note(
+        "c03x: real compio-executor, real threads; mailbox conservation at logical quiescence (all wakers returned), owner \
+         models `always` (ticks unconditionally; bound ceil(tasks/max_interval)+1 ticks) and `notify` (ticks only after an \
+         ExecutorConfig::waker notification or while tick() returns true)",
+    );
+    if let Some(path) = args.get("replay") {
+        let text = std::fs::read_to_string(path).expect("replay file");
+        let v: Value = vcommon::serde_json::from_str(&text).expect("replay json");
+        let Some(p) = Program::from_json(&v["program"]["program"]) else {
+            rep.inconclusive("replay file has no c03x program (crash replays carry only stderr; re-run the recorded argv)");
+            rep.finish();
+            return;
+        };
+        let reps = args.usize("reps", v["program"]["reps"].as_u64().unwrap_or(300) as usize);
+        for i in 0..reps {
+            let mut p = p.clone();
+            // same shape, fresh yield pattern from the second repetition on
+            p.salt = p.salt.wrapping_add(i as u64 * 0x9E37);
+            if evaluate(&p, &mut rep, &leg) || rep.out_of_time() {
+                break;
+            }
+        }
+        rep.finish();
+        return;
+    }
+    let stress = args.flag("stress");
+    let iters = args.iters(if cfg!(miri) { 40 } else { 2_000 }, if cfg!(miri) { 600 } else { 40_000 });
+    let base = Rng::new(args.seed()).fork(args.shard() + 1);
+    // Shift Miri's own schedule stream per shard (its seed is per process).
+    for _ in 0..(args.shard() * 7 + args.seed() % 5) {
+        thread::yield_now();
+    }
+    for i in 0..iters {
+        if rep.out_of_time() {
+            break;
+        }
+        let mut rng = base.fork(i as u64);
+        let p = gen_program(&mut rng, args, stress);
+        evaluate(&p, &mut rep, &leg);
+    }
+    rep.finish();
 }
